@@ -109,6 +109,23 @@ func c19Write(c *fw.Case) {
 	case esc == '`' && !incr && rng.Intn(2) == 0:
 		fns = append(fns, qsql.MySQL())
 		preset = "MySQL()"
+	case esc == '"' && incr && rng.Intn(2) == 0:
+		// numbered placeholders switched on next to a preset that only sets the escape character, in either order
+		if rng.Intn(2) == 0 {
+			fns = append(fns, qsql.Incrementing(), qsql.SQLite())
+			preset = "Incrementing() SQLite()"
+		} else {
+			fns = append(fns, qsql.SQLite(), qsql.Incrementing())
+			preset = "SQLite() Incrementing()"
+		}
+	case esc == '`' && incr && rng.Intn(2) == 0:
+		if rng.Intn(2) == 0 {
+			fns = append(fns, qsql.Incrementing(), qsql.MySQL())
+			preset = "Incrementing() MySQL()"
+		} else {
+			fns = append(fns, qsql.Postgres(), qsql.MySQL())
+			preset = "Postgres() MySQL()"
+		}
 	default:
 		if esc != 0 {
 			fns = append(fns, qsql.EscapeChar(esc))
